@@ -187,7 +187,7 @@ def r_numbering(repo, rep, R='R7.3'):
                     for n in ast.walk(q):
                         if isinstance(n, ast.Call):
                             txt = src(n)
-                            is_sink = ('.format(' in txt and 'header' in src(n.func)) or ("'sentence'" in txt and src(n.func).endswith('.set')) or \
+                            is_sink = (isinstance(n.func, ast.Attribute) and n.func.attr == 'format' and len(n.args) >= 2) or ("'sentence'" in txt and src(n.func).endswith('.set')) or \
                                 (src_ref(n.func) in ('_prolog_string',)) or (src(n.func).endswith('.write') and 'ccg(' in txt)
                             if is_sink:
                                 names = {x.id for x in ast.walk(n) if isinstance(x, ast.Name)}
